@@ -236,21 +236,9 @@ def run(rep, tier):
     else:
         rep.ob("R5", "xdis.std.make_std_api", "float-branch", False, expected="isinstance(python_version, float) conversion", derived="not found")
     # ---------------------------------------------------------------- R6 the shared decoder and line-start machinery
-    from ..par import pmap
     from ..report import SubReport, merge_sub
-    from . import c05
-    from .c12 import _decoder_work
-    subs = {p: SubReport(p) for p in ("C02", "C03", "C04")}
-    nops = 0
-    for res in pmap(_decoder_work, sorted(T.reachable)):
-        for (p_, rule, construct, detail, ok, exp, got, where, msg) in res:
-            if p_ == "META":
-                nops += detail
-            elif p_ in subs:
-                subs[p_].ob(rule, construct, detail, ok, expected=exp, derived=got, where=where, msg=msg)
-    rep.floor("(table, opcode) decoder specialisations", nops, 4000)
-    for p_ in sorted(subs):
-        merge_sub(rep, subs[p_], "R6", p_)
+    from . import c05, dis_rules
+    dis_rules.restate_decoder(rep, T, "R6", tier)
     sub = SubReport("C05", tier=tier)
     c05.run(sub, tier)
     merge_sub(rep, sub, "R6", "C05")
